@@ -250,6 +250,15 @@ def judge(exp, outcome):
 
 
 # ----------------------------------------------------------------------------- D1
+def absent(r, idx, construct, detail, loc='', **kw):
+    """Report a construct that was NOT FOUND: a removal (VIOLATION) only when no unreviewed helper could hide it."""
+    left = list(getattr(idx, 'unreviewed', None) or [])
+    if left:
+        r.undecided(construct, detail + ' [not called a removal: helper(s) %s could not be inlined for review]' % ', '.join(left), loc)
+    else:
+        r.violation(construct, detail, loc, **kw)
+
+
 def make_hook(flag_attr, negpow):
     def hook(cv, attr, valnode):
         if cv.ci is not None and cv.ci.qualname == AQ and attr == flag_attr:
@@ -489,7 +498,7 @@ def d2_array(ctx, idx):
         # ValueError -> UnableToParse
         tr = lib.enclosing_try(call)
         if tr is None:
-            r.violation('MathExpression.eval_array: except ValueError', 'the construction is no longer inside a try: numpy\'s '
+            absent(r, idx, 'MathExpression.eval_array: except ValueError', 'the construction is no longer inside a try: numpy\'s '
                         'ValueError for ragged input escapes instead of UnableToParse', lib.loc(fi, call))
         else:
             hs = [h for h in tr.handlers if set(lib.handler_class_names(h)) & {'ValueError', 'Exception', 'BaseException'}]
@@ -519,7 +528,7 @@ def d2_array(ctx, idx):
                         tests.append((n, pol))
         rets = [n for n in cfg.nodes if n.kind == 'stmt' and isinstance(n.ast, ast.Return)]
         if not tests:
-            r.violation('MathExpression.eval_array: dtype object', 'the `dtype == object` test is gone: ragged rows yield an '
+            absent(r, idx, 'MathExpression.eval_array: dtype object', 'the `dtype == object` test is gone: ragged rows yield an '
                         'object array that is handed to the evaluator', fi.loc, expected="if array.dtype == 'object': raise UnableToParse")
         else:
             tn, pol = tests[0]
@@ -604,7 +613,7 @@ def d3_negative_powers(ctx, idx):
                             ctxs.append(ce)
             construct = 'MatrixGrader.check_response: evaluation'
             if not ctxs:
-                r.violation(construct, 'the parent check_response (which evaluates the student\'s formula) is not called inside '
+                absent(r, idx, construct, 'the parent check_response (which evaluates the student\'s formula) is not called inside '
                             '`with MathArray.enable_negative_powers(...)`: negative_powers=False is ignored', lib.loc(fi, call),
                             expected="with MathArray.enable_negative_powers(self.config['negative_powers'])")
                 continue
@@ -725,7 +734,7 @@ def d4_cast(ctx, idx, flag_attr):
                     '(from np.dot, norm, det, trace) reach the next operator as left operands and broadcast silently' % short(v),
                     lib.loc(fi, ret), expected='return cast_np_numeric_as_builtin(result, map_across_lists=True)', found=short(ret))
         if n_ret == 0:
-            r.violation('MathExpression.eval_node: return of the action result', 'no return hands out the action result', fi.loc)
+            absent(r, idx, 'MathExpression.eval_node: return of the action result', 'no return hands out the action result', fi.loc)
         # (c) eval_product: every arithmetic update of the accumulator is followed by the cast before the next iteration / return
         fp = idx.func(ME + '.eval_product')
         pcfg = cfg_of(fp.node)
